@@ -1,11 +1,26 @@
 /-
-C20 — bundled tools.  The logic of the tools is modelled in E57/Model/Tools.lean and compared with the
-real binaries by the tools suite.  Proved (E57/Proofs/SoftFloat.lean, namespace E57.SF), for the
-soft-float model of binary64/binary32 that suite `sfloat` ties to the hardware:
+C20 — bundled tools preserve data end to end.  The logic of the tools is modelled in E57/Model/Tools.lean and
+E57/Model/Pages.lean (`validateCrc`) and compared with the real binaries by the tools suite.
 
- * `colour_roundTrip : c < 256 → colourRoundTrip c = c` — every 8-bit colour survives
-   normalise(0..255) → `as f32` → `* 255f32` → `as u8`; the whole table is decided in the kernel;
- * `colour_normalised`, `toU8B_spec` (the saturating cast), `val64_ofInt_small`.
+`E57/Proofs/ToolsProps.lean` (namespace `E57.ToolsP`):
+ * e57-check-crc: `validateCrc_iff` — `validate_crc` succeeds with page size ps iff the header is long enough, ps is
+   an acceptable page size, the length is a positive multiple of ps and EVERY page's stored big-endian checksum is the
+   CRC-32C of its payload (predicates written with drop/take/crc32c/toBE32 only, no reader); the fuel of the loop is
+   shown sufficient; `checkFiles_iff` (the tool's exit status); `validateCrc_none_iff`, `validateCrc_detects(_burst)`,
+   `validateCrc_altered_iff` (C07: validation fails exactly when an altered page no longer matches its checksum);
+   `validateCrc_every_alteration_statement_false` ("every alteration is rejected" is false: the 33-bit burst witness);
+   `validateCrc_finalized` (every file the writer finishes passes).
+ * e57-from-xyz: `fromXyzLine_spec`, `fromXyzLine_skip_iff`, `fromXyzLine_abort_iff`; `fromXyz_accepted`,
+   `xyz_points_stored` (by C01: the points the tool adds are the points the raw iterator returns, in order).
+ * colours: `parseUnsigned_255_roundtrip`, `colourToU8_parses_back`; with `E57/Proofs/SoftFloat.lean`:
+   `SF.colour_roundTrip` (every 8-bit colour survives normalise → as f32 → ·255 → as u8, decided in the kernel for
+   the soft-float model that suite `sfloat` ties to the hardware).
+ * e57-to-xyz: `toXyzPoint_eq`; under `IEEEFacts` (12 facts about the native `Float`, opaque to the kernel:
+   1·v = v, v+0 = v except −0, f32→f64→f32 identity, …) `IEEEFacts.coords`, `toXyzPoint_roundtrip`,
+   `xyzRoundTrip_spec`: finite coordinates come back numerically unchanged and in order;
+   `xyz_coords_bits_statement_false`: −0.0 comes back as +0.0 (the identity pose is applied as 1·x+0·y+0·z+0),
+   numerically equal; `xyz_coords_bits_partial` for all other finite values.
 -/
 import E57.Model.Tools
 import E57.Proofs.SoftFloat
+import E57.Proofs.ToolsProps
